@@ -1624,6 +1624,7 @@ parsec_update_deps_with_counter(parsec_taskpool_t *tp,
     (void)origin_flow;
     (void)dest_flow;
 
+    PARSEC_VERIF_POINT(PARSEC_VERIF_K_READ, deps);  /* plain read of *deps below (check-then-CAS) */
     if( 0 == *deps ) {
         dep_new_value = parsec_check_IN_dependencies_with_counter(tp, task) - 1;
         if( parsec_atomic_cas_int32( deps, 0, dep_new_value ) == 1 )
@@ -1687,6 +1688,7 @@ parsec_update_deps_with_mask(parsec_taskpool_t *tp,
 
     dep_new_value = PARSEC_DEPENDENCIES_IN_DONE | (1 << dest_flow->flow_index);
     /* Mark the dependencies and check if this particular instance can be executed */
+    PARSEC_VERIF_POINT(PARSEC_VERIF_K_READ, deps);  /* plain read of *deps below (check-then-fetch_or) */
     if( !(PARSEC_DEPENDENCIES_IN_DONE & (*deps)) ) {
         dep_new_value |= parsec_check_IN_dependencies_with_mask(tp, task);
 #if defined(PARSEC_DEBUG_NOISIER)
